@@ -2,6 +2,7 @@ import Sheens.Driver.Match
 import Sheens.Driver.Engine
 import Sheens.Driver.Crew
 import Sheens.Driver.MCrew
+import Sheens.Driver.Timers
 
 /-! `driver`: one JSON op per line in, one JSON verdict line out. -/
 
@@ -14,6 +15,7 @@ def dispatch (j : Json) : Json :=
   | "step" => Driver.handleStep j
   | "crew" => Driver.handleCrew j
   | "mcrew" => Driver.handleMCrew j
+  | "timers" => Driver.handleTimers j
   | op => Json.mkObj [("error", Json.str ("unknown op " ++ op))]
 
 partial def loop (hin : IO.FS.Stream) (hout : IO.FS.Stream) : IO Unit := do
